@@ -66,7 +66,9 @@ def max_edge_order(H):
     num_edges_order
     """
     if H._edge:
-        d_max = max(len(edge) for edge in H._edge.values()) - 1
+        # (a directed edge is stored as its tail and its head: its size is the
+        # number of nodes it joins, as for `H.edges.size` and `H.edges.order`)
+        d_max = max(len(H.edges.members(e)) for e in H.edges) - 1
     else:
         d_max = 0 if H._node else None
     return d_max
